@@ -26,6 +26,9 @@ TEXT = {
  "C14": ("seeded deterministic simulation with adversarial scheduling at library yield points; oracle: bounded termination on the fake clock, leak scan, Send/Receive stickiness",
          "Seeded search over operation sequences x handler programs x schedules, including delays at every single library synchronisation point and every pair (sampled by tape; coverage of pairs is counted in the evidence). Liveness is decided as deterministic hang detection on the simulated clock, which real-time tests cannot do.",
          "5 C14"),
+ "C15": ("seeded deterministic simulation with cancellation/expiry instants chosen by the scheduler on a fake clock; oracle: codes of operations started after the instant",
+         "Seeded search over cancellation instants relative to call progress (any scheduler step, incl. while a Send is blocked on a full window or a Receive on an empty body) and expiry instants on the simulated clock; only decidable with a controlled clock and scheduler. That the server-side context is cancelled is the stub's doing and is not claimed.",
+         "5 C15"),
 }
 
 hooks_commits = subprocess.run(["git", "-C", "/repo", "log", "--format=%H", "--grep=^verif:"], capture_output=True, text=True).stdout.split()
